@@ -103,7 +103,9 @@ static EbErrorType svt_dec_handle_ctor(EbDecHandle **   decHandleDblPtr,
     EbErrorType return_error = EB_ErrorNone;
 
     // Allocate Memory
-    EbDecHandle *dec_handle_ptr = (EbDecHandle *)malloc(sizeof(EbDecHandle));
+    /* zero-initialised: cur_pic_buf[], ref_frame_map[] and next_ref_frame_map[] are tested against NULL
+       (dec_ref_count_and_rel, svt_dec_out_buf) before the first frame has been decoded */
+    EbDecHandle *dec_handle_ptr = (EbDecHandle *)calloc(1, sizeof(EbDecHandle));
     *decHandleDblPtr            = dec_handle_ptr;
     if (dec_handle_ptr == (EbDecHandle *)NULL)
         return EB_ErrorInsufficientResources;
@@ -144,6 +146,9 @@ static void copy_even(uint8_t *luma, uint32_t wd, uint32_t ht, uint32_t stride, 
 }
 /* Copy from recon buffer to out buffer! */
 int svt_dec_out_buf(EbDecHandle *dec_handle_ptr, EbBufferHeaderType *p_buffer) {
+    /* no frame has been decoded yet: nothing to output */
+    if (dec_handle_ptr->cur_pic_buf[0] == NULL)
+        return 0;
     EbPictureBufferDesc *recon_picture_buf = dec_handle_ptr->cur_pic_buf[0]->ps_pic_buf;
     EbSvtIOFormat *      out_img           = (EbSvtIOFormat *)p_buffer->p_buffer;
 
